@@ -14,7 +14,7 @@ using namespace lab;
 using vf::Case;
 using vf::Outcome;
 
-enum { OP_YIELD = 0, OP_SLEEP = 1, OP_INT = 2, OP_FIRST_CUSTOM = 10 };
+enum { OP_YIELD = 0, OP_SLEEP = 1, OP_INT = 2, OP_BURN = 3, OP_FIRST_CUSTOM = 10 };   // OP_BURN t: compute for t us of virtual time without yielding
 static const int ERRNOS[] = {EINTR, ECANCELED, EAGAIN};
 
 struct ActorState {
@@ -77,6 +77,7 @@ struct Common {
         switch (r[0]) {
         case OP_YIELD: st[id].phase = "yield"; photon::thread_yield(); break;
         case OP_SLEEP: st[id].phase = "sleep"; st[id].phase_arg = r.at(1); photon::thread_usleep((uint64_t)r.at(1)); break;
+        case OP_BURN: st[id].phase = "burn"; L.ctl.vnow += (uint64_t)std::max<long>(0, r.at(1)); L.ctl.clock_jumps++; break;
         case OP_INT: {
             int j = (int)(r.at(1) % nactors());
             if (j == id || !L.actor_th[j]) break;
@@ -124,6 +125,7 @@ inline std::string describe_common(const Case& c, const std::function<std::strin
             if (r.empty()) continue;
             if (r[0] == OP_YIELD) o << " yield;";
             else if (r[0] == OP_SLEEP) o << " sleep(" << r[1] << ");";
+            else if (r[0] == OP_BURN) o << " burn(" << r[1] << ");";
             else if (r[0] == OP_INT) o << " interrupt(actor" << r[1] % (long)arows.size() << ",e" << r[2] % 3 << ");";
             else o << " " << opname(r) << ";";
         }
